@@ -7,6 +7,7 @@ import (
 	"time"
 
 	"github.com/aperturerobotics/bifrost/link"
+	"github.com/aperturerobotics/bifrost/tptaddr"
 	"github.com/aperturerobotics/bifrost/transport/common/dialer"
 	"github.com/aperturerobotics/controllerbus/directive"
 
@@ -49,6 +50,7 @@ type c05World struct {
 	final            *c05Watch
 	healed           bool
 	dialStr          string
+	tptDirs          int
 }
 
 type c05Dial struct {
@@ -77,14 +79,36 @@ func (h *c05Watch) HandleValueAdded(_ directive.Instance, v directive.AttachedVa
 	}
 }
 func (h *c05Watch) HandleValueRemoved(directive.Instance, directive.AttachedValue) {}
-func (h *c05Watch) HandleInstanceDisposed(directive.Instance)                      {}
+
+// c05TptWatch watches a DialTptAddr(address, N, want) directive: every value must be a
+// link to want.
+type c05TptWatch struct {
+	w        *c05World
+	want     *node.TC
+	wantName string
+}
+
+func (h *c05TptWatch) HandleValueAdded(_ directive.Instance, v directive.AttachedValue) {
+	l, ok := v.GetValue().(link.Link)
+	if !ok {
+		return
+	}
+	h.w.s.Count("done:dial-tptaddr-value")
+	if l.GetRemotePeer() != h.want.P.ID {
+		h.w.fail(&dsim.Violation{Property: "C05", Rule: "dial-for-X-returned-link-to-other-peer", Witness: "DialTptAddr",
+			Detail: fmt.Sprintf("DialTptAddr(%s at %q) was given a link whose authenticated remote peer is %s", h.wantName, h.w.dialStr, h.w.net.Names[l.GetRemotePeer().String()])})
+	}
+}
+func (h *c05TptWatch) HandleValueRemoved(directive.Instance, directive.AttachedValue) {}
+func (h *c05TptWatch) HandleInstanceDisposed(directive.Instance)                      {}
+func (h *c05Watch) HandleInstanceDisposed(directive.Instance)                         {}
 
 func init() {
 	register(&Spec{
 		ID: "C05", World: "QUIC",
 		New:        func() dsim.World { return &c05World{} },
 		Cfg:        dsim.Config{MaxChaosSteps: 400, MaxStableSteps: 60000, Horizon: 5 * time.Minute},
-		Real:       []string{"transport/controller.Controller (DialPeerAddr, link dialers, EstablishLinkWithPeer resolver, flushEstablishedLink dialer restart)", "transport/common/dialer.Dialer (backoff retry)", "transport/common/pconn.Transport, transport/common/quic (Transport.DialPeer, Dialer, HandleSession, Link)", "crypto/tls identity + certificate verification", "quic-go v0.59 and crypto/tls handshakes", "controllerbus, peer controller"},
+		Real:       []string{"transport/controller.Controller (DialPeerAddr, link dialers, EstablishLinkWithPeer resolver, flushEstablishedLink dialer restart)", "transport/common/dialer.Dialer (backoff retry)", "tptaddr.DialTptAddr directive and its resolver in the transport controller", "transport/common/pconn.Transport, transport/common/quic (Transport.DialPeer, Dialer, HandleSession, Link)", "crypto/tls identity + certificate verification", "quic-go v0.59 and crypto/tls handshakes", "controllerbus, peer controller"},
 		Stub:       []string{"net.PacketConn is a simulator-owned datagram endpoint (worlds/pnet): delivery order, loss, duplication, corruption and address binding are driver decisions", "websocket and WebRTC dial paths are not run (real sockets / pion)"},
 		FaultKinds: []string{"fault:address-rebind-to-impostor", "fault:address-rebind-to-owner", "fault:packet-loss", "fault:packet-dup", "fault:packet-reorder", "fault:packet-corrupt", "fault:clock-jump", "fault:dial-cancel", "fault:concurrent-dial-other-peer", "fault:alias-dial-string"},
 	})
@@ -211,6 +235,22 @@ func (w *c05World) Actions(s *dsim.Sim, add func(dsim.Action)) {
 		add(dsim.Action{Name: "3op:dial", Weight: 6, Fire: func() { w.ops++; w.dial() }})
 		// another caller wants the impostor's identity at the same address (its dial shares
 		// the transport's per-address dialer with a dial for X that is in flight)
+		// the same requests as DialTptAddr directives (two of them live at once for different
+		// target peers at one address)
+		if w.tptDirs < 3 {
+			for _, tg := range []struct {
+				tc *node.TC
+				nm string
+			}{{w.tx, "X"}, {w.ti, "I"}} {
+				tg := tg
+				add(dsim.Action{Name: "3op:dial-tptaddr:" + tg.nm, Weight: 2, Fire: func() {
+					w.ops++
+					w.tptDirs++
+					s.Logf("DialTptAddr(%s@%s)", tg.nm, w.dialStr)
+					_, _, _ = w.n.Bus.AddDirective(tptaddr.NewDialTptAddr(&dialer.DialerOpts{Address: "sim|" + w.dialStr}, w.tn.P.ID, tg.tc.P.ID), &c05TptWatch{w: w, want: tg.tc, wantName: tg.nm})
+				}})
+			}
+		}
 		add(dsim.Action{Name: "3op:dial-for-other-peer", Weight: 2, Fire: func() { w.ops++; s.Count("fault:concurrent-dial-other-peer"); w.dialFor(w.ti, "I") }})
 	}
 	for _, d := range w.dials {
